@@ -1,17 +1,15 @@
 (* C17 driver: runs the extracted ExportImport model and the declarative oracles on the harness
    cases.  Case syntax: see harness/zz_verif/c17.go.
 
-   The model compared with the implementation is [startup], the code as it is.  To evaluate the
-   proposed repair (build/proposed-fixes/C17-1.diff) on a patched tree run
-     VERIF_C17_MODEL=fixed VERIF_REPO=<patched tree> bin/check C17
-   which compares against [startup_fixed]; once the repair is committed to the service make "fixed"
-   the default here and move the finding to status "fixed". *)
+   The model compared with the implementation is [startup]: database.Init as it is since service commit
+   6243e75 (a refused import removes what it inserted).  VERIF_C17_MODEL=old compares against
+   [startup_old], the behaviour before that commit (history; only useful to look at an old tree). *)
 open Vutil
 module S = Stdlib.String
 module L = Stdlib.List
 module EI = ExportImport
 
-let use_fixed_model = (Sys.getenv_opt "VERIF_C17_MODEL" = Some "fixed")
+let use_old_model = (Sys.getenv_opt "VERIF_C17_MODEL" = Some "old")
 
 (* ---- Coq strings ---- *)
 let ascii_of_char (c : char) : Ascii.ascii =
@@ -155,7 +153,7 @@ let start c prepared tbl fopt =
   match c.genesis with
   | None -> failwith "no genesis row"
   | Some g ->
-    (if use_fixed_model then EI.startup_fixed else EI.startup)
+    (if use_old_model then EI.startup_old else EI.startup)
       c.hashf (nat_of_int c.bsz) c.ckh c.ckhash g prepared tbl fopt
 
 (* ---- model observable ---- *)
